@@ -86,10 +86,12 @@ func (s *Service) create(ctx context.Context, tx gorp.Tx, _channels *[]Channel, 
 		}
 	}
 
-	// Auto-create index channels for calculated channels (only for new calculated channels)
+	// Auto-create index channels for calculated channels (only for new calculated
+	// channels). A request forwarded by the create of another node already carries the
+	// index channel, which must not be created a second time.
 	indexChannels := make([]Channel, 0, len(channels))
 	for _, ch := range channels {
-		if ch.IsCalculated() && ch.LocalKey == 0 {
+		if ch.IsCalculated() && ch.LocalKey == 0 && !hasCalculatedIndex(channels, ch) {
 			indexCh := Channel{
 				Name:        ch.Name + calculatedIndexNameSuffix,
 				DataType:    telem.TimeStampT,
@@ -134,6 +136,15 @@ func (s *Service) create(ctx context.Context, tx gorp.Tx, _channels *[]Channel, 
 	oChannels = append(oChannels, batch.Gateway...)
 	*_channels = oChannels
 	return s.maybeSetResources(ctx, tx, oChannels, opts)
+}
+
+// hasCalculatedIndex reports whether channels already contains the not yet created,
+// automatically generated index channel of the calculated channel calc.
+func hasCalculatedIndex(channels []Channel, calc Channel) bool {
+	name := calc.Name + calculatedIndexNameSuffix
+	return lo.ContainsBy(channels, func(c Channel) bool {
+		return c.Name == name && c.IsIndex && c.Virtual && c.Free() && c.LocalKey == 0
+	})
 }
 
 func (s *Service) createAndUpdateFreeVirtual(
